@@ -660,21 +660,48 @@ namespace jsoncons {
             return uri(uri_encoded_part, std::string(scheme()), userinfo, host, port, path, query, fragment);
         }
 
+        // Compares two encoded parts, the hex digits of a percent-encoded octet without regard to case ("%3a" and "%3A" are equivalent, RFC 3986 2.1)
+        static int compare_encoded(string_view lhs, string_view rhs) noexcept
+        {
+            const std::size_t n = (std::min)(lhs.size(), rhs.size());
+            int hex_digits = 0;
+            for (std::size_t i = 0; i < n; ++i)
+            {
+                char a = lhs[i];
+                char b = rhs[i];
+                if (hex_digits > 0)
+                {
+                    if (a >= 'a' && a <= 'f') a = static_cast<char>(a - 'a' + 'A');
+                    if (b >= 'a' && b <= 'f') b = static_cast<char>(b - 'a' + 'A');
+                    --hex_digits;
+                }
+                else if (a == '%')
+                {
+                    hex_digits = 2;
+                }
+                if (a != b)
+                {
+                    return static_cast<unsigned char>(a) < static_cast<unsigned char>(b) ? -1 : 1;
+                }
+            }
+            return lhs.size() == rhs.size() ? 0 : (lhs.size() < rhs.size() ? -1 : 1);
+        }
+
         int compare(const uri& other) const
         {
             int result = scheme().compare(other.scheme());
             if (result != 0) return result;
-            result = encoded_userinfo().compare(other.encoded_userinfo());
+            result = compare_encoded(encoded_userinfo(), other.encoded_userinfo());
             if (result != 0) return result;
             result = host().compare(other.host());
             if (result != 0) return result;
             result = port().compare(other.port());
             if (result != 0) return result;
-            result = encoded_path().compare(other.encoded_path());
+            result = compare_encoded(encoded_path(), other.encoded_path());
             if (result != 0) return result;
-            result = encoded_query().compare(other.encoded_query());
+            result = compare_encoded(encoded_query(), other.encoded_query());
             if (result != 0) return result;
-            result = encoded_fragment().compare(other.encoded_fragment());
+            result = compare_encoded(encoded_fragment(), other.encoded_fragment());
 
             return result;
         }
